@@ -5,7 +5,7 @@
    Model/Assign.v execute (array_ref.hpp, detail/layout.hpp, detail/operators.hpp; file:line cited there). *)
 From BM Require Import Base.Tactics Model.Layout Model.View Model.Spec Model.Iter Model.Rebase Model.Assign Model.Asserts
   Proofs.LayoutProofs Proofs.ViewProofs2 Proofs.IterProofs Proofs.RebaseProofs Proofs.AssertsProofs Proofs.AssertsProofs2
-  Proofs.AssertsProofs3.
+  Proofs.AssertsProofs3 Model.AssertsRecv Proofs.AssertsProofs4.
 Local Open Scope Z_scope.
 
 (* (1) SILENT ON VALID USE.  Any rank, any extents (0 and 1 included), any finite sequence of view operations each
@@ -92,6 +92,100 @@ Theorem C20_guarded_access_in_bounds :
     \/ exists a, g_brackets Debug w idx = Done a /\ a = addr_brackets w idx /\ 0 <= a < prod sz.
 Proof. exact C20_guarded_access_in_bounds_proved. Qed.
 Print Assumptions C20_guarded_access_in_bounds.
+
+(* (2') THE RECEIVER AND THE ENTRY POINT ARE IRRELEVANT (Model/AssertsRecv.v: which overload of operator[](index) each receiver
+   kind selects, what it asserts, what it returns).  For every receiver kind -- const_subarray, subarray, move_subarray,
+   array_ref, array, static_array; named lvalue, const lvalue, rvalue (std::move), prvalue temporary, result of unary + --
+   and every entry point whose first level goes through operator[] (r[i0][i1].., r(i0, i1, ..), r.apply(tuple), r[tuple]):
+   the guarded access is g_brackets and the aborting level abort_level, in every configuration; the same holds for ANY
+   choice of overload at every level. *)
+Theorem C20_index_receiver_irrelevant :
+  forall (c : config) (e : entry) (r : recv) (v : view) (idx : list Z),
+    first_checked e = true ->
+       g_entry c e r v idx = g_brackets c v idx
+    /\ abort_level_entry e v idx = abort_level v idx
+    /\ g_brackets_r c r v idx = g_brackets c v idx
+    /\ (forall ovs, g_levels c ovs v idx = g_brackets c v idx).
+Proof. exact C20_index_receiver_irrelevant_proved. Qed.
+Print Assumptions C20_index_receiver_irrelevant.
+
+(* hence C20_index_guard for every receiver and checked entry point: abort exactly when an index is outside its
+   extension, otherwise the address of the unchecked builds *)
+Theorem C20_index_guard_any_receiver :
+  forall (e : entry) (r : recv) (v : view) (idx : list Z),
+    first_checked e = true -> lok (lay v) -> pos (lay v) -> length idx = length (lay v) ->
+       (in_extl (lay v) idx -> g_entry Debug e r v idx = Done (addr_brackets v idx))
+    /\ (~ in_extl (lay v) idx -> g_entry Debug e r v idx = Aborted)
+    /\ (forall c, c <> Debug -> g_entry c e r v idx = Done (addr_brackets v idx)).
+Proof. exact C20_index_guard_any_receiver_proved. Qed.
+Print Assumptions C20_index_guard_any_receiver.
+
+(* front(), back(), iterator [] and *, end()[-k] evaluate no assertion at the first level (they hold no extension); the later
+   levels stay guarded, and for a first index the assertion would accept the access IS the bracket access *)
+Theorem C20_unchecked_first_level :
+  forall (c : config) (e : entry) (r : recv) (v : view) (i : Z) (rest : list Z),
+    first_checked e = false -> e <> ECursor ->
+       g_entry c e r v (i :: rest) = g_brackets c (v_index i v) rest
+    /\ abort_level_entry e v (i :: rest) = option_map S (abort_level (v_index i v) rest)
+    /\ (asrt_index i v = true ->
+           g_entry c e r v (i :: rest) = g_brackets c v (i :: rest)
+        /\ abort_level_entry e v (i :: rest) = abort_level v (i :: rest)).
+Proof. exact C20_unchecked_first_level_proved. Qed.
+Print Assumptions C20_unchecked_first_level.
+
+Theorem C20_front_back_iterator_in_range :
+  forall (c : config) (e : entry) (r : recv) (v : view) (d : dim) (l : layout) (k : Z) (rest : list Z),
+    first_checked e = false -> e <> ECursor -> lay v = d :: l -> dok d -> 0 <= k < d_size d ->
+    g_entry c e r v ((fst (d_extension d) + k) :: rest) = g_brackets c v ((fst (d_extension d) + k) :: rest).
+Proof. exact C20_front_back_iterator_in_range_proved. Qed.
+Print Assumptions C20_front_back_iterator_in_range.
+
+(* owning copies (multi::array(view), +view, static_array(view): the view's extensions, canonical strides) abort at the
+   same level as the view: the verdict is a function of the extensions alone *)
+Theorem C20_index_guard_extensions_only :
+  forall (idx : list Z) (v w : view),
+    lok (lay v) -> pos (lay v) -> lok (lay w) -> pos (lay w) ->
+    l_extensions (lay v) = l_extensions (lay w) ->
+       abort_level v idx = abort_level w idx
+    /\ asrt_brackets v idx = asrt_brackets w idx.
+Proof. exact C20_index_guard_extensions_only_proved. Qed.
+Print Assumptions C20_index_guard_extensions_only.
+
+(* cursors: home()[k0][k1].. evaluates no assertion; with offsets taken from an index tuple inside the extensions it
+   reaches the element of the bracket access *)
+Theorem C20_cursor_in_range :
+  forall (v : view) (idx : list Z), lok (lay v) -> in_extl (lay v) idx ->
+    addr_cursor v (vsubz idx (map fst (l_extensions (lay v)))) = addr_brackets v idx
+    /\ forall c r, g_entry c ECursor r v idx = Done (addr_brackets v idx).
+Proof. exact C20_cursor_in_range_proved. Qed.
+Print Assumptions C20_cursor_in_range.
+
+(* elements_at(n): beyond num_elements() it is stopped by its own assertion; the REPAIRED code
+   (notes/patches_C20/elements-at-rebased.diff) is silent on every position in [0, num_elements()) for any index bases and
+   uses indices inside the extensions; the code as pinned agrees with it on zero-based arrays and is refuted on re-based ones *)
+Theorem C20_elements_at_fire : forall fixed v n, lay v <> [] -> l_num_elements (lay v) <= n ->
+  g_elements_at Debug fixed v n = Aborted.
+Proof. exact C20_elements_at_fire_proved. Qed.
+Print Assumptions C20_elements_at_fire.
+
+Theorem C20_elements_at_fixed_silent :
+  forall (v : view) (n : Z), lok (lay v) -> pos (lay v) -> 0 <= n < l_num_elements (lay v) ->
+       g_elements_at Debug true v n = Done (addr_brackets v (elements_at_idx true (lay v) n))
+    /\ in_extl (lay v) (elements_at_idx true (lay v) n)
+    /\ forall c, g_elements_at c true v n = g_elements_at Debug true v n.
+Proof. exact C20_elements_at_fixed_silent_proved. Qed.
+Print Assumptions C20_elements_at_fixed_silent.
+
+Theorem C20_elements_at_pinned_zero_based :
+  forall (l : layout) (n : Z), Forall (fun d => fst (d_extension d) = 0) l ->
+    elements_at_idx false l n = elements_at_idx true l n
+    /\ forall b k, asrt_elements_at_all false (mkview l b) n k = asrt_elements_at_all true (mkview l b) n k.
+Proof. exact C20_elements_at_pinned_zero_based_proved. Qed.
+Print Assumptions C20_elements_at_pinned_zero_based.
+
+Theorem C20_elements_at_rebased_refuted : ~ C20_elements_at_silent_full.
+Proof. exact C20_elements_at_rebased_refuted_proved. Qed.
+Print Assumptions C20_elements_at_rebased_refuted.
 
 (* the `stride()==0 ||` escape of the index assertion is harmless: all indices designate the same sub-view *)
 Theorem C20_zero_stride_escape : forall v d l i j, lay v = d :: l -> d_stride d = 0 ->
